@@ -323,6 +323,126 @@ def r2_sbx(ctx, repo, clip_params):
 
 
 # ------------------------------------------------------------------ R3 generators
+def _abs_cases(e, lo_t, hi_t):
+    """the expression with every |A| resolved by the sign of A, one variant per sign that some lo <= hi allows
+    (A linear in the two bounds); (None, reason) when an absolute value cannot be resolved"""
+    import copy
+    import itertools
+    calls = [n for n in ast.walk(e) if isinstance(n, ast.Call) and (access_path(n.func) or "").split(".")[-1] in ("fabs", "abs", "absolute") and len(n.args) == 1]
+    if not calls:
+        return [(e, "")]
+    options = []
+    for c in calls:
+        try:
+            r = poly.norm(c.args[0])
+        except poly.NotPolynomial:
+            return [(None, "argument of %s not polynomial" % text(c))]
+        if r.den != poly.P(1):
+            return [(None, "argument of %s not polynomial" % text(c))]
+        lo_k, hi_k = poly.key_of(poly.norm(poly.parse(lo_t))), poly.key_of(poly.norm(poly.parse(hi_t)))
+        a = b = c0 = 0
+        lin = True
+        for m, co in r.num.items():
+            if m == ():
+                c0 = co
+            elif len(m) == 1 and m[0][1] == 1 and poly.key_of(poly.R({m: 1})) == hi_k:
+                a = co
+            elif len(m) == 1 and m[0][1] == 1 and poly.key_of(poly.R({m: 1})) == lo_k:
+                b = co
+            else:
+                lin = False
+        if not lin:
+            return [(None, "argument of %s is not linear in the two bounds" % text(c))]
+        # with hi = lo + d, d >= 0:  A = (a + b) lo + a d + c0
+        neg = not (a + b == 0 and a >= 0 and c0 >= 0)
+        pos = not (a + b == 0 and a <= 0 and c0 <= 0)
+        opts = []
+        if pos or not neg:
+            opts.append((+1, "%s >= 0" % text(c.args[0])))
+        if neg:
+            opts.append((-1, "%s < 0 (possible with lower <= upper)" % text(c.args[0])))
+        options.append(opts)
+    out = []
+    for combo in itertools.product(*options):
+
+        class U(ast.NodeTransformer):
+            def __init__(self):
+                self.i = 0
+
+            def visit_Call(self, n):
+                is_abs = (access_path(n.func) or "").split(".")[-1] in ("fabs", "abs", "absolute") and len(n.args) == 1
+                if is_abs:
+                    sg = combo[self.i][0]
+                    self.i += 1
+                    arg = self.visit(n.args[0])
+                    return arg if sg > 0 else ast.UnaryOp(op=ast.USub(), operand=arg)
+                self.generic_visit(n)
+                return n
+        # ast.walk order (breadth first) differs from the transformer's (depth first): number the calls in transformer order
+        order = []
+
+        class O(ast.NodeVisitor):
+            def visit_Call(self, n):
+                if (access_path(n.func) or "").split(".")[-1] in ("fabs", "abs", "absolute") and len(n.args) == 1:
+                    order.append(n)
+                    self.visit(n.args[0])
+                    return
+                self.generic_visit(n)
+        O().visit(e)
+        pos_of = {id(c): i for i, c in enumerate(calls)}
+        combo = [combo[pos_of[id(c)]] for c in order]
+        e2 = ast.fix_missing_locations(U().visit(copy.deepcopy(e)))
+        label = "; ".join(t for sg, t in combo if sg < 0)
+        out.append((e2, label))
+    return out
+
+
+def unit_affine_scaling(ctx, repo, rid="R3"):
+    """unit samples of LHS / Halton are mapped to the bounds by lo + w*(hi-lo), column by column"""
+    doe = repo.module("doe")
+    fn = doe.functions.get("construct_df_from_random_matrix")
+    C = "doe.construct_df_from_random_matrix"
+    if fn is None:
+        raise AnalysisError("construct_df_from_random_matrix not found")
+    xs, fl = func_params(fn)[:2]
+    TD = Terms(fn)
+    apps = []
+    for st_ in stmts_of(fn):
+        if isinstance(st_, ast.Expr) and method_call(st_.value) and method_call(st_.value)[1] == "append" and st_.value.args:
+            ex_ = TD.expand(st_.value.args[0], at=st_)
+            if isinstance(ex_, ast.BinOp):
+                apps.append(ex_)
+    ok = False
+    detail = None
+    for e in apps:
+        idxs = {text(n_.slice) for n_ in ast.walk(e) if isinstance(n_, ast.Subscript) and access_path(n_.value) == fl}
+        loopvars = [access_path(t.target) for t in stmts_of(fn) if isinstance(t, ast.For)]
+        wn0 = [n_ for n_ in ast.walk(e) if isinstance(n_, ast.Subscript) and access_path(n_.value) in loopvars]
+        if len(idxs) != 1 or not wn0:
+            continue
+        k = next(iter(idxs))
+        lo_t, hi_t = "%s[%s][0]" % (fl, k), "%s[%s][1]" % (fl, k)
+        if text(wn0[0].slice) != k:
+            detail = "the unit sample of column %s is scaled with the bounds of column %s" % (text(wn0[0].slice), k)
+            break
+        want = poly.parse("{lo} + W * ({hi} - {lo})".format(lo=lo_t, hi=hi_t))
+        from .c16 import subst
+        verdicts = []
+        for e2, case in _abs_cases(e, lo_t, hi_t):
+            if e2 is None:
+                verdicts.append((None, case))
+                continue
+            eq = poly.equal(subst(e2, {text(wn0[0]): "W"}), want)
+            verdicts.append((eq, case))
+        if verdicts and all(v is True for v, _c in verdicts):
+            ok = True
+        elif any(v is False for v, _c in verdicts):
+            case = next(c for v, c in verdicts if v is False)
+            detail = "scaling %s is not lo + w*(hi-lo)%s" % (text(e), (" when " + case) if case else "")
+    ctx.check3(True if ok else (False if detail else None), rid, C, where(doe, fn), "unit samples are mapped by lo + w*(hi-lo) with the bounds of the same column", detail or "",
+               "scaling expression not found", key="unit-affine-doe")
+
+
 def r3_generators(ctx, repo):
     cls = repo.cls("VectorAndNumbers", "utils")
     mod = cls.module
@@ -470,49 +590,8 @@ def r3_generators(ctx, repo):
         else:
             ctx.holds("R3", C, where(mod, lp), "exactly one gen_number(bounds...) per declared parameter on all %d body paths" % n, key="one-per-parameter")
 
-    # unit-sample scaling used by LHS / Halton
+    unit_affine_scaling(ctx, repo)
     doe = repo.module("doe")
-    fn = doe.functions.get("construct_df_from_random_matrix")
-    C = "doe.construct_df_from_random_matrix"
-    if fn is None:
-        raise AnalysisError("construct_df_from_random_matrix not found")
-    xs, fl = func_params(fn)[:2]
-    TD = Terms(fn)
-    apps = []
-    for st_ in stmts_of(fn):
-        if isinstance(st_, ast.Expr) and method_call(st_.value) and method_call(st_.value)[1] == "append" and st_.value.args:
-            ex_ = TD.expand(st_.value.args[0], at=st_)
-            if isinstance(ex_, ast.BinOp):
-                apps.append(ex_)
-    ok = False
-    detail = None
-    for e in apps:
-        import copy
-
-        class U(ast.NodeTransformer):
-            def visit_Call(self, n):
-                self.generic_visit(n)
-                if (access_path(n.func) or "").split(".")[-1] in ("fabs", "abs") and len(n.args) == 1:
-                    return n.args[0]           # |hi - lo| = hi - lo under lo <= hi
-                return n
-        e2 = U().visit(copy.deepcopy(e))
-        idxs = {text(n_.slice) for n_ in ast.walk(e2) if isinstance(n_, ast.Subscript) and access_path(n_.value) == fl}
-        wnodes = [n_ for n_ in ast.walk(e2) if isinstance(n_, ast.Subscript) and access_path(n_.value) in [access_path(t.target) for t in stmts_of(fn) if isinstance(t, ast.For)]]
-        if len(idxs) == 1 and wnodes:
-            k = next(iter(idxs))
-            want = poly.parse("{f}[{k}][0] + W * ({f}[{k}][1] - {f}[{k}][0])".format(f=fl, k=k))
-            from .c16 import subst
-            e3 = subst(e2, {text(wnodes[0]): "W"})
-            if text(wnodes[0].slice) != k:
-                detail = "the unit sample of column %s is scaled with the bounds of column %s" % (text(wnodes[0].slice), k)
-                break
-            eq = poly.equal(e3, want)
-            if eq:
-                ok = True
-            elif eq is False:
-                detail = "scaling %s is not lo + w*(hi-lo)" % text(e)
-    ctx.check3(True if ok else (False if detail else None), "R3", C, where(doe, fn), "unit samples are mapped by lo + w*(hi-lo) with the bounds of the same column", detail or "",
-               "scaling expression not found", key="unit-affine-doe")
 
     # UniformGenerator grid: decided by the grid rule of C12 (levels lo + i*(hi-lo)/(k-1), i in [0,k), full product)
     from . import c12
